@@ -158,6 +158,9 @@ class Aff:
 
     __rmul__ = __mul__
 
+    def __repr__(self):
+        return f"Aff({self.c[0]}, {self.c[1]}, {self.c[2]})"
+
 
 def aff(x):
     return x if isinstance(x, Aff) else Aff(int(x))
@@ -401,10 +404,31 @@ CACHE = os.path.join(os.path.dirname(os.path.abspath(__file__)), "tables_cache.t
 STATUS = os.path.join(os.path.dirname(os.path.dirname(os.path.abspath(__file__))), "work", "translate_status.json")
 
 
-def load_cache():
-    import ast
+def exec_tables():
+    """the tables as the compiled crate implements them: `harness dump full` (built from /repo's working
+    tree by check.py / setup.sh just before).  None when the harness is not available."""
+    import subprocess
+    if os.environ.get("VERIF_NO_EXEC_TABLES") == "1":
+        return None, "disabled by the caller (the harness does not build against this tree)"
+    exe = os.path.join(os.path.dirname(os.path.dirname(os.path.abspath(__file__))), "harness", "target", "release", "harness")
+    if not os.path.exists(exe):
+        return None, "harness binary not built"
     try:
-        return ast.literal_eval(open(CACHE).read())
+        p = subprocess.run([exe, "dump", "full"], capture_output=True, text=True, timeout=300)
+    except Exception as e:
+        return None, f"harness dump: {e}"
+    if p.returncode != 0:
+        return None, (p.stderr.strip() or f"harness dump exited with {p.returncode}")[:300]
+    try:
+        return eval(p.stdout, {"__builtins__": {}, "Aff": Aff, "True": True, "False": False, "None": None}), ""
+    except Exception as e:
+        return None, f"harness dump output not understood: {e}"
+
+
+def load_cache():
+    # a Python literal, plus `Aff(c0, cParts, cPoints)` terms
+    try:
+        return eval(open(CACHE).read(), {"__builtins__": {}, "Aff": Aff})
     except Exception:
         return {}
 
@@ -437,6 +461,8 @@ def emit():
     # as a broken proof obligation for exactly those properties.
     cache = load_cache()
     status = {}
+    ex, ex_why = exec_tables()
+    status["_executed"] = "ok" if ex is not None else f"tables not obtained by execution ({ex_why}); parsed from the source text instead"
     def section(name, thunk):
         try:
             try:
@@ -453,12 +479,23 @@ def emit():
                 raise
             status[name] = f"not re-derived ({e}); last successful derivation reused"
             return cache[name]
-    names, variants, arms, preds, dnames = section("shapetype", lambda: parse_shapetype(files["lib.rs"]))
-    svariants, st_arms, disp, conv = section("shape_tables", lambda: parse_shape_tables(files["record/mod.rs"]))
-    hst = section("has_shapetype", lambda: parse_has_shapetype(files))
-    in_bytes, records = section("sizes", lambda: parse_sizes(files))
+    # tables the harness obtains by EXECUTING the crate (whatever its source looks like) take
+    # precedence over the same tables parsed from the source text
+    def pick(name, parse):
+        return (lambda: ex[name]) if ex is not None and name in ex else parse
+    names, variants, arms, preds, dnames = section("shapetype", pick("shapetype", lambda: parse_shapetype(files["lib.rs"])))
+    svariants, st_arms, disp, conv = section("shape_tables", pick("shape_tables", lambda: parse_shape_tables(files["record/mod.rs"])))
+    hst = section("has_shapetype", pick("has_shapetype", lambda: parse_has_shapetype(files)))
+    # size_in_bytes by execution (fitted and cross-checked affine terms); size_of_record is private: parsed
+    if ex is not None and "size_in_bytes" in ex:
+        in_bytes = section("size_in_bytes", lambda: ex["size_in_bytes"])
+        records = section("size_of_record", lambda: parse_sizes(files)[1])
+    else:
+        in_bytes, records = section("sizes", lambda: parse_sizes(files))
+        cache["size_in_bytes"], cache["size_of_record"] = in_bytes, records
+        status["size_in_bytes"] = status["size_of_record"] = status.pop("sizes")
     ptsizes = section("point_sizes", lambda: parse_point_read_sizes(files["record/point.rs"]))
-    parms, pwr, prd, pclose = section("patch", lambda: parse_patch(files["record/multipatch.rs"]))
+    parms, pwr, prd, pclose = section("patch", pick("patch", lambda: parse_patch(files["record/multipatch.rs"])))
     consts = section("consts", lambda: parse_consts(files))
     alloc_sites = section("alloc_sites", lambda: parse_alloc_sites(files))
     save_state(cache, status)
